@@ -145,12 +145,19 @@ def real_save(case, d, log, mode=None):
     IndxIO = catii_indxio()
     f = d.writer(mode or case["wmode"])
     entries = entries_dict(case)
-    with warnings.catch_warnings():
-        warnings.simplefilter("ignore")
-        IndxIO.save(f, entries, case["common"], U32)
-    f.flush()
+    try:
+        with warnings.catch_warnings():
+            warnings.simplefilter("ignore")
+            IndxIO.save(f, entries, case["common"], U32)
+        f.flush()
+    except Exception as e:
+        raise SaveRaised(e)
     log.add("save", tuple(f.calls))
     return f
+
+
+class SaveRaised(Exception):
+    """The fault-free save of an in-domain input raised (C10/C11 judge it; C12 skips the file)."""
 
 
 def real_load(d, rmode="raw"):
@@ -231,7 +238,10 @@ def c10_execute(case, stats, log):
         disk.check_log_reproduces(f.ops, d)
         f.close()
         log.add_bytes(d.content())
-        loaded = real_load(d, case["rmode"])
+        try:
+            loaded = real_load(d, case["rmode"])
+        except Exception as e:
+            raise Violation(prop, "load-raised:" + type(e).__name__, "save-load", "load of a complete file raised %r" % (e,))
         compare_loaded(prop, "save-load", case, loaded)
         if "shape" in case:
             from catii import iindex
@@ -494,7 +504,14 @@ EXECUTORS = {"C10": c10_execute, "C11": c11_execute, "C12": c12_execute}
 def run_case(prop, case, stats):
     log = core.EventLog()
     try:
-        EXECUTORS[prop](case, stats, log)
+        try:
+            EXECUTORS[prop](case, stats, log)
+        except SaveRaised as e:
+            if prop == "C12":
+                stats.count("fault_free_save_raised_not_judged")
+                return "save-raised"
+            raise Violation(prop, "save-raised:" + type(e.args[0]).__name__, "save",
+                            "save of an in-domain input raised %r" % (e.args[0],))
     except Violation as v:
         v.extra["case"] = case
         raise
@@ -515,7 +532,12 @@ def run_case(prop, case, stats):
 def replay(prop, case):
     stats = core.Stats()
     log = core.EventLog()
-    EXECUTORS[prop](case, stats, log)
+    try:
+        EXECUTORS[prop](case, stats, log)
+    except SaveRaised as e:
+        if prop != "C12":
+            raise Violation(prop, "save-raised:" + type(e.args[0]).__name__, "save",
+                            "save of an in-domain input raised %r" % (e.args[0],))
 
 
 def _fails_same(prop, case, signature):
